@@ -66,6 +66,8 @@ def rule_unraised(model: Model, funcs: list[Func]) -> list[Ob]:
     for f in funcs:
         for n in ast.walk(f.node):
             if isinstance(n, ast.Raise) and n.exc is not None:
+                if getattr(n, "_synthetic", False):
+                    continue        # the unreachable marker after a call of a helper that never returns
                 r = is_exception_ctor(model, f, n.exc, exc)
                 if r:
                     obs.append(Ob("UNRAISED", key(f, "UNRAISED", "raise " + norm(n.exc)[:80]), OK,
